@@ -588,16 +588,15 @@ __find_zrng(const struct zif_s z[static 1U], stamp_t t, int min, int max)
 
 	trno = __find_trno(z, t, min, max);
 	res.prev = zif_trans(z, trno);
-	if (UNLIKELY(trno <= 0 && t < res.prev)) {
-		res.trno = 0U;
+	if (UNLIKELY(trno < 0)) {
+		/* before the first transition,
+		 * assume the first offset has always been there */
+		res.trno = -1;
 		res.prev = STAMP_MIN;
-		/* assume the first offset has always been there */
-		res.next = res.prev;
-	} else if (UNLIKELY(trno < 0)) {
-		/* special case where no transitions are recorded */
-		res.trno = 0U;
-		res.prev = STAMP_MIN;
-		res.next = STAMP_MAX;
+		/* ... up to the first transition if there is one */
+		res.next = z->ntr ? zif_trans(z, 0) : STAMP_MAX;
+		res.offs = _zif_troffs(z, 0);
+		return res;
 	} else {
 		res.trno = trno;
 		if (LIKELY(trno + 1U < z->ntr)) {
